@@ -168,7 +168,7 @@ PROPS['C02'] = {
 VSIGN_FNS = ['flipdot_testing::virtual_sign_bus::VirtualSign::{process_message, query_state, receive_config, send_data, data_chunks_sent, receive_pixels, pixels_complete, show_loaded_page, load_next_page, start_reset, finish_reset, goodbye, flush_pixels, reset} (Kani, per-step from an arbitrary state)',
              'flipdot_testing::virtual_sign_bus::VirtualSignBus::process_message (Kani, against the contract of the sign step)',
              'flipdot_core::page::Page::from_bytes, flipdot_core::sign_type::SignType::from_bytes (executed symbolically inside the step)']
-A_VSIGN_BOUND = ('symbolic state bounds of the per-step harnesses: pending buffer of any length 0..=64 with arbitrary contents, 0 or 1 stored page (a 2x8 page), any u32 width/height, '
+A_VSIGN_BOUND = ('symbolic state bounds of the per-step harnesses: pending buffer of any length 0..=400 with arbitrary contents (the largest real page image is 336 bytes), 0 or 1 stored page (a 2x8 page), any u32 width/height, '
                  'any u16 chunk counter, any recorded type; data chunks of every length 0..=255. The step function only appends to / clears / length-compares the buffer and only pushes to / clears the page list, '
                  'so the bounds are believed immaterial, but that uniformity is argued, not proved')
 A_LOG = 'A-log: the log macros are compiled in but no logger is installed (max_level = Off), so their arguments (incl. Display for Page) are not evaluated'
